@@ -108,6 +108,9 @@ func Image(t *rapid.T, o Opts) bt.Image {
 	}
 	u := rapid.SampledFrom(o.PageSizes).Draw(t, "ps")
 	img := bt.Image{PageSize: u, Layout: Layout(t), Master: fmtb.TreeOpts{LeafCells: rapid.SampledFrom([]int{0, 0, 1}).Draw(t, "masterleaf")}}
+	// mostly the current schema format; sometimes an older one, in which DESC
+	// in index definitions is ignored (everything is stored ascending)
+	img.Header.SchemaFormat = rapid.SampledFrom([]uint32{0, 0, 0, 0, 4, 3, 2}).Draw(t, "schemaformat")
 	ncols := rapid.IntRange(1, 4).Draw(t, "ncols")
 	nrows := rapid.IntRange(0, o.MaxRows).Draw(t, "nrows")
 	if rapid.IntRange(0, 5).Draw(t, "fewrows") == 0 {
